@@ -7,7 +7,16 @@ import GeoVerif.Props.C04
 `any(...)`/`all(...)` become `List.any` / `List.all`).  Each translated loop is proved equal to the hand-written
 structural recursion of `Model/Multi.lean`, for every member list and every member-level relation, and the C04 laws are
 restated for the translated loops.
+
+Round 2: `bounds` (the four columns through `list(zip(*…))`, `min` / `max`), `__iter__`, and `split`, translated on the heap
+of property dictionaries (`GV.Py.mapH` threads the heap through the member copies and through the stores) and proved
+equal to the model's `split` for every heap; `bounds_is_union`, `bounds_perm`, `split_spec`, `split_isolated` restated for
+the source.  The public relations (`contains`, `in`, `intersects` with their time gates): `Props/C04SrcGate.lean`.
 -/
+set_option linter.unusedSimpArgs false
+set_option linter.unusedTactic false
+set_option linter.unreachableTactic false
+
 namespace GV.C04Src
 open GV GV.Multi
 
@@ -25,40 +34,149 @@ macro "loop_eq" : tactic =>
       | (rw [Bool.eq_iff_iff]; simp [List.any_eq_true, List.all_eq_true]; done)
       | grind))
 
-theorem containsCoord_eq (rc : μ → κ → Bool) (rs ri : μ → σ → Bool) (ms : List μ) (c : κ) :
-    Src.Multi.containsCoord rc rs ri ms c = containsCoord rc ms c := by loop_eq
+theorem containsCoord_eq (rc : μ → κ → Bool) (rs ri : μ → σ → Bool) (bnd : μ → Box) (ms : List μ) (c : κ) :
+    Src.Multi.containsCoord rc rs ri bnd ms c = containsCoord rc ms c := by loop_eq
 
-theorem containsSingle_eq (rc : μ → κ → Bool) (rs ri : μ → σ → Bool) (ms : List μ) (x : σ) :
-    Src.Multi.containsSingle rc rs ri ms x = containsSingle rs ms x := by loop_eq
+theorem containsSingle_eq (rc : μ → κ → Bool) (rs ri : μ → σ → Bool) (bnd : μ → Box) (ms : List μ) (x : σ) :
+    Src.Multi.containsSingle rc rs ri bnd ms x = containsSingle rs ms x := by loop_eq
 
-theorem containsMulti_eq (rc : μ → κ → Bool) (rs ri : μ → σ → Bool) (ms : List μ) (ys : List σ) :
-    Src.Multi.containsMulti rc rs ri ms ys = containsMulti rs ms ys := by loop_eq
+theorem containsMulti_eq (rc : μ → κ → Bool) (rs ri : μ → σ → Bool) (bnd : μ → Box) (ms : List μ) (ys : List σ) :
+    Src.Multi.containsMulti rc rs ri bnd ms ys = containsMulti rs ms ys := by loop_eq
 
-theorem intersectsSingle_eq (rc : μ → κ → Bool) (rs ri : μ → σ → Bool) (ms : List μ) (x : σ) :
-    Src.Multi.intersectsSingle rc rs ri ms x = intersectsSingle ri ms x := by loop_eq
+theorem intersectsSingle_eq (rc : μ → κ → Bool) (rs ri : μ → σ → Bool) (bnd : μ → Box) (ms : List μ) (x : σ) :
+    Src.Multi.intersectsSingle rc rs ri bnd ms x = intersectsSingle ri ms x := by loop_eq
 
-theorem intersectsMulti_eq (rc : μ → κ → Bool) (rs ri : μ → σ → Bool) (ms : List μ) (ys : List σ) :
-    Src.Multi.intersectsMulti rc rs ri ms ys = intersectsMulti ri ms ys := by loop_eq
+theorem intersectsMulti_eq (rc : μ → κ → Bool) (rs ri : μ → σ → Bool) (bnd : μ → Box) (ms : List μ) (ys : List σ) :
+    Src.Multi.intersectsMulti rc rs ri bnd ms ys = intersectsMulti ri ms ys := by loop_eq
 
 /-! ### the C04 laws, restated for the translated source -/
 
 /-- the source's `contains_coordinate`: some member contains the coordinate -/
-theorem src_containsCoord_iff (rc : μ → κ → Bool) (rs ri : μ → σ → Bool) (ms : List μ) (c : κ) :
-    Src.Multi.containsCoord rc rs ri ms c = true ↔ ∃ m ∈ ms, rc m c = true := by
+theorem src_containsCoord_iff (rc : μ → κ → Bool) (rs ri : μ → σ → Bool) (bnd : μ → Box) (ms : List μ) (c : κ) :
+    Src.Multi.containsCoord rc rs ri bnd ms c = true ↔ ∃ m ∈ ms, rc m c = true := by
   rw [containsCoord_eq, containsCoord_eq_any, List.any_eq_true]
 
 /-- the source's `intersects_shape`: some member intersects some part of the argument -/
-theorem src_intersects_iff (rc : μ → κ → Bool) (rs ri : μ → σ → Bool) (ms : List μ) (a : Arg σ) :
+theorem src_intersects_iff (rc : μ → κ → Bool) (rs ri : μ → σ → Bool) (bnd : μ → Box) (ms : List μ) (a : Arg σ) :
     (match a with
-      | .single x => Src.Multi.intersectsSingle rc rs ri ms x
-      | .multi ys => Src.Multi.intersectsMulti rc rs ri ms ys) = true ↔ ∃ m ∈ ms, ∃ p ∈ a.parts, ri m p = true := by
+      | .single x => Src.Multi.intersectsSingle rc rs ri bnd ms x
+      | .multi ys => Src.Multi.intersectsMulti rc rs ri bnd ms ys) = true ↔ ∃ m ∈ ms, ∃ p ∈ a.parts, ri m p = true := by
   rw [← intersectsShape_iff]; cases a <;> simp only [intersectsSingle_eq, intersectsMulti_eq, intersectsShape]
 
 /-- the source's `contains_shape`: every part of the argument is contained by some member -/
-theorem src_contains_iff (rc : μ → κ → Bool) (rs ri : μ → σ → Bool) (ms : List μ) (a : Arg σ) :
+theorem src_contains_iff (rc : μ → κ → Bool) (rs ri : μ → σ → Bool) (bnd : μ → Box) (ms : List μ) (a : Arg σ) :
     (match a with
-      | .single x => Src.Multi.containsSingle rc rs ri ms x
-      | .multi ys => Src.Multi.containsMulti rc rs ri ms ys) = true ↔ ∀ p ∈ a.parts, ∃ m ∈ ms, rs m p = true := by
+      | .single x => Src.Multi.containsSingle rc rs ri bnd ms x
+      | .multi ys => Src.Multi.containsMulti rc rs ri bnd ms ys) = true ↔ ∀ p ∈ a.parts, ∃ m ∈ ms, rs m p = true := by
   rw [← containsShape_iff]; cases a <;> simp only [containsSingle_eq, containsMulti_eq, containsShape]
+
+/-! ## round 2: `bounds` -/
+
+theorem foldl_min_eq (x : Rat) (ys : List Rat) :
+    ys.foldl (fun m y => if y < m then y else m) x = pyMin x ys := by
+  induction ys generalizing x with
+  | nil => rfl
+  | cons y ys ih => simp only [List.foldl_cons, pyMin, ih]
+
+theorem foldl_max_eq (x : Rat) (ys : List Rat) :
+    ys.foldl (fun m y => if y > m then y else m) x = pyMax x ys := by
+  induction ys generalizing x with
+  | nil => rfl
+  | cons y ys ih => simp only [List.foldl_cons, pyMax, ih]
+
+/-- **the translated `bounds`** (the four columns of the members' bounds through `list(zip(*…))`, `min` / `max` of each) is
+    the model's `bounds` of the list of member bounds — including the `ValueError` of a multi-shape without members -/
+theorem bounds_eq (rc : μ → κ → Bool) (rs ri : μ → σ → Bool) (bnd : μ → Box) (ms : List μ) :
+    Src.Multi.bounds rc rs ri bnd ms = bounds (ms.map bnd) := by
+  unfold Src.Multi.bounds
+  cases ms with
+  | nil => simp [GV.Py.unzip4, bounds]
+  | cons m ms =>
+    simp [GV.Py.unzip4, GV.Py.minL, GV.Py.maxL, bounds, foldl_min_eq, foldl_max_eq, List.map_map, Function.comp_def]
+
+/-- the source's `bounds` of a multi-shape with at least one member: the union of the members' bounds -/
+theorem src_bounds_is_union (rc : μ → κ → Bool) (rs ri : μ → σ → Bool) (bnd : μ → Box) (ms : List μ) (hne : ms ≠ []) :
+    ∃ B, Src.Multi.bounds rc rs ri bnd ms = .ok B ∧ IsUnion B (ms.map bnd) := by
+  rw [bounds_eq]; exact bounds_is_union _ (by simpa using hne)
+
+/-- the source's `bounds` does not depend on the member order -/
+theorem src_bounds_perm (rc : μ → κ → Bool) (rs ri : μ → σ → Bool) (bnd : μ → Box) {ms ms' : List μ} (h : ms.Perm ms') :
+    Src.Multi.bounds rc rs ri bnd ms = Src.Multi.bounds rc rs ri bnd ms' := by
+  rw [bounds_eq, bounds_eq]; exact bounds_perm (h.map bnd)
+
+/-! ## round 2: `__iter__`, `split` -/
+
+/-- iterating a multi-shape yields its members, in order -/
+theorem iter_eq (rc : μ → κ → Bool) (rs ri : μ → σ → Bool) (bnd : μ → Box) (ms : List μ) :
+    Src.Multi.iter rc rs ri bnd ms = ms := by
+  simp only [Src.Multi.iter]
+
+/-- two heap-threading maps with pointwise equal steps are equal -/
+theorem mapH_congr {η α β : Type} (f g : η → α → η × β) (hfg : ∀ h x, f h x = g h x) :
+    ∀ (h : η) (l : List α), GV.Py.mapH f h l = GV.Py.mapH g h l := by
+  intro h l
+  induction l generalizing h with
+  | nil => rfl
+  | cons x xs ih => simp only [GV.Py.mapH, hfg, ih]
+
+/-- the model's `copyAll` threads the heap through the member copies -/
+theorem copyAll_eq_mapH {γ : Type} (h : Heap) (ms : List (Shp γ)) :
+    copyAll h ms = GV.Py.mapH copyMember h ms := by
+  induction ms generalizing h with
+  | nil => rfl
+  | cons m ms ih => simp only [copyAll, GV.Py.mapH, ih]
+
+/-- the model's `assignAll` threads the heap through the stores -/
+theorem assignAll_eq_mapH {γ : Type} (pdt : Option TI) (pa : Nat) (h : Heap) (ss : List (Shp γ)) :
+    assignAll pdt pa h ss =
+      GV.Py.mapH (fun h s => ((h.alloc (h.read pa)).1, { geom := s.geom, dt := pdt, props := (h.alloc (h.read pa)).2 }))
+        h ss := by
+  induction ss generalizing h with
+  | nil => rfl
+  | cons s ss ih => simp only [assignAll, GV.Py.mapH, ih]
+
+/-- **the translated `split`** — `[shape.copy() for shape in self.geoshapes]` (each copy allocates), then the loop that
+    stores a *new* copy of the parent's dictionary and the parent's `dt` into every copy — is the model's `split`, on
+    every heap -/
+theorem split_eq {γ : Type} (rc : μ → κ → Bool) (rs ri : μ → σ → Bool) (bnd : μ → Box)
+    (h : Heap) (pdt : Option TI) (pa : Nat) (ms : List (Shp γ)) :
+    Src.Multi.split rc rs ri bnd h (ms, pdt, pa) = split h pdt pa ms := by
+  have key : ∀ (f1 : Heap → Shp γ → Heap × Shp γ) (f2 : Heap → Shp γ → Heap × Shp γ),
+      (∀ hh m, f1 hh m = copyMember hh m) →
+      (∀ hh s, f2 hh s = ((hh.alloc (hh.read pa)).1, { geom := s.geom, dt := pdt, props := (hh.alloc (hh.read pa)).2 })) →
+      ((GV.Py.mapH f2 (GV.Py.mapH f1 h ms).1 (GV.Py.mapH f1 h ms).2).1,
+        (GV.Py.mapH f2 (GV.Py.mapH f1 h ms).1 (GV.Py.mapH f1 h ms).2).2) = split h pdt pa ms := by
+    intro f1 f2 e1 e2
+    unfold split
+    rw [copyAll_eq_mapH, assignAll_eq_mapH, mapH_congr f1 copyMember e1, mapH_congr f2 _ e2]
+  unfold Src.Multi.split
+  exact key _ _ (fun _ _ => rfl) (fun _ _ => rfl)
+
+/-- the source's `split`: member geometries in order, the parent's `dt`, the parent's properties in **new** dictionaries,
+    no dictionary shared, nothing that existed modified -/
+theorem src_split_spec {γ : Type} (rc : μ → κ → Bool) (rs ri : μ → σ → Bool) (bnd : μ → Box)
+    (h : Heap) (pdt : Option TI) (pa : Nat) (ms : List (Shp γ)) (hpa : pa < h.length) :
+    let r := Src.Multi.split rc rs ri bnd h (ms, pdt, pa)
+    r.2.map (·.geom) = ms.map (·.geom) ∧
+    (∀ s ∈ r.2, s.dt = pdt) ∧
+    (∀ s ∈ r.2, r.1.read s.props = h.read pa) ∧
+    (∀ s ∈ r.2, h.length ≤ s.props ∧ s.props < r.1.length) ∧
+    (r.2.map (·.props)).Nodup ∧
+    (∀ a, a < h.length → r.1.read a = h.read a) := by
+  rw [split_eq]; exact split_spec h pdt pa ms hpa
+
+/-- the source's `split` shares no mutable state: `set_property` on a returned shape reaches neither the parent nor the
+    members nor the other returned shapes, and `set_property` on the parent afterwards does not reach the returned shapes -/
+theorem src_split_isolated {γ : Type} (rc : μ → κ → Bool) (rs ri : μ → σ → Bool) (bnd : μ → Box)
+    (h : Heap) (pdt : Option TI) (pa : Nat) (ms : List (Shp γ)) (hpa : pa < h.length) (k v : String) :
+    let r := Src.Multi.split rc rs ri bnd h (ms, pdt, pa)
+    (∀ s ∈ r.2,
+      let h2 := setProperty r.1 s k v
+      h2.read s.props = dictSet (h.read pa) k v ∧
+      h2.read pa = h.read pa ∧
+      (∀ m ∈ ms, m.props < h.length → h2.read m.props = h.read m.props) ∧
+      (∀ s' ∈ r.2, s'.props ≠ s.props → h2.read s'.props = h.read pa)) ∧
+    (∀ s ∈ r.2, (Heap.write r.1 pa (dictSet (r.1.read pa) k v)).read s.props = h.read pa) := by
+  rw [split_eq]; exact split_isolated h pdt pa ms hpa k v
 
 end GV.C04Src
